@@ -1,5 +1,6 @@
 """C19 -- chain tracing.  Deductive: ribana.get_nn_dist (nearest admissible candidate of a radius query), add_chain_suffix and
-add_chain_prefix (chain invariant over position-function tables).  The main loop of trace_chains is out of deductive reach: bounded."""
+add_chain_prefix (chain invariant over position-function tables), and the connection step of trace_chains against the two callee contracts
+(requires at the call sites, unused object numbers).  The rest of trace_chains' main loop is out of deductive reach: bounded."""
 import z3
 from vfw import sym
 from vfw.sym import SV, SB, ctx, Unsupported
@@ -80,27 +81,20 @@ class _MotlStub:
         return L()
 
 
-def _chain_tables(cx, fresh_chain=True):
-    """pre-state of a merge step: the table T of chains traced so far satisfies the chain invariant, the new chain C (class c_new, not
-    used in T) carries orders 1..m in row order, the particle the new chain connects to is a row of T, subtomogram numbers are unique"""
+def _chain_tables(cx, form="fresh"):
+    """pre-state of a merge step (assumed = the REQUIRES, see chain_requires): the table T of chains traced so far satisfies the chain invariant,
+    the new chain C carries an unused number and the orders 1..m (or continues chain P, form 'both'), the particle the new chain connects to is a row
+    of T, subtomogram numbers are unique"""
     T = ptable.PTable(TCOLS, "T_", int_cols=("subtomo_id", "object_id", "geom2"))
     C = ptable.PTable(TCOLS, "C_", int_cols=("subtomo_id", "object_id", "geom2"))
     N, m = sym.to_z3(T.n), sym.to_z3(C.n)
-    cnew, pid = z3.Int("c_new"), z3.Int("particle_id")
-    i, j = z3.Ints("i!pre j!pre")
-    tc, to, ts = T.fn["object_id"], T.fn["geom2"], T.fn["subtomo_id"]
-    cc, co = C.fn["object_id"], C.fn["geom2"]
-    pred = z3.Function("pred_row", z3.IntSort(), z3.IntSort())
-    p0 = z3.Int("particle_row")
-    cx.assume(z3.And(m >= 1, N >= 1))
-    cx.assume(z3.ForAll([i], z3.Implies(z3.And(i >= 0, i < N), z3.And(to(i) >= 1, tc(i) != cnew, tc(i) >= 1))))  # object numbers are positive (trace_chains counts from 1)
-    cx.assume(cnew >= 1)
-    cx.assume(z3.ForAll([i, j], z3.Implies(z3.And(i >= 0, i < N, j >= 0, j < N, i != j), z3.And(ts(i) != ts(j), z3.Implies(tc(i) == tc(j), to(i) != to(j))))))
-    cx.assume(z3.ForAll([i], z3.Implies(z3.And(i >= 0, i < N, to(i) > 1), z3.And(pred(i) >= 0, pred(i) < N, tc(pred(i)) == tc(i), to(pred(i)) == to(i) - 1))))
-    if fresh_chain:
-        cx.assume(z3.ForAll([j], z3.Implies(z3.And(j >= 0, j < m), z3.And(cc(j) == cnew, co(j) == j + 1))))
-    cx.assume(z3.And(p0 >= 0, p0 < N, ts(p0) == pid))
-    return T, C, {"pred": pred, "N": N, "m": m, "cnew": cnew, "pid": pid, "p0": p0, "tc": tc, "to": to, "ts": ts, "td": T.fn["geom4"], "cc": cc, "co": co, "cd": C.fn["geom4"]}
+    v = {"pred": z3.Function("pred_row", z3.IntSort(), z3.IntSort()), "N": N, "m": m, "cnew": z3.Int("c_new"), "pid": z3.Int("particle_id"), "p0": z3.Int("particle_row"),
+         "tc": T.fn["object_id"], "to": T.fn["geom2"], "ts": T.fn["subtomo_id"], "td": T.fn["geom4"], "cc": C.fn["object_id"], "co": C.fn["geom2"], "cd": C.fn["geom4"], "cs": C.fn["subtomo_id"]}
+    if form == "both":
+        v.update(cP=z3.Int("class_P"), base=z3.Int("base"), fresh=z3.Int("fresh_class"), pP=z3.Int("row_P"))
+    for nm, fml in chain_requires(v, form):
+        cx.assume(fml)
+    return T, C, v
 
 
 def _chain_invariant(tables, witnesses):
@@ -124,6 +118,107 @@ def _chain_invariant(tables, witnesses):
     return out
 
 
+R = sym.real
+COLS_T = ("tc", "to", "td", "ts")
+COLS_C = ("cc", "co", "cd", "cs")
+
+
+def _pre_of(v):
+    """pre-state of a merge step as callables (row position -> cell term) and scalars"""
+    return dict(v)
+
+
+def _post_of(T, C):
+    return {"tc": T.cols["object_id"], "to": T.cols["geom2"], "td": T.cols["geom4"], "ts": T.cols["subtomo_id"],
+            "cc": C.cols["object_id"], "co": C.cols["geom2"], "cd": C.cols["geom4"], "cs": C.cols["subtomo_id"]}
+
+
+def _same(pre, post, keys, n, tag):
+    i = z3.Int(f"i!same{tag}")
+    return z3.ForAll([i], z3.Implies(z3.And(i >= 0, i < n), z3.And(*[R(post[k](i)) == R(pre[k](i)) for k in keys])))
+
+
+def suffix_rel(pre, post, d):
+    """relational postcondition of add_chain_suffix(C, ., T, particle, d): (clauses when it returns True, clauses when it returns False).
+    The same lists are the obligations of the callee's contract and the assumed summary at its call sites."""
+    N, m, p0 = pre["N"], pre["m"], pre["p0"]
+    temp, oid, prev = R(pre["tc"](p0)), R(pre["to"](p0)), pre["td"](p0)
+    i, j = z3.Ints("i!sx j!sx")
+    inT = lambda x: z3.And(x >= 0, x < N)
+    last = z3.ForAll([i], z3.Implies(z3.And(inT(i), pre["tc"](i) == pre["tc"](p0)), pre["to"](i) <= pre["to"](p0)))  # the particle is the last of its chain
+    tail = lambda x: z3.And(z3.Not(last), R(pre["tc"](x)) == temp, R(pre["to"](x)) > oid)
+    wit = {0: lambda x: [(0, pre["pred"](x))], 1: lambda x: [(1, x - 1), (0, p0)]}
+    when_true = [
+        ("change_only_when_last_or_new_link_not_longer", z3.Or(last, prev >= d)),  # at equal distances either choice satisfies the property
+        ("new_chain_follows_the_particle_immediately", z3.ForAll([j], z3.Implies(z3.And(j >= 0, j < m), z3.And(R(post["cc"](j)) == temp, R(post["co"](j)) == oid + j + 1)))),
+        ("link_distance_recorded_at_the_particle", post["td"](p0) == d),
+        ("cut_off_tail_keeps_its_internal_order_under_the_new_chains_number",
+         z3.ForAll([i], z3.Implies(z3.And(inT(i), tail(i)), z3.And(R(post["tc"](i)) == R(pre["cnew"]), R(post["to"](i)) == R(pre["to"](i)) - oid)))),
+        ("all_other_rows_unchanged", z3.ForAll([i], z3.Implies(z3.And(inT(i), z3.Not(tail(i))), z3.And(R(post["tc"](i)) == R(pre["tc"](i)), R(post["to"](i)) == R(pre["to"](i)))))),
+        ("subtomogram_numbers_and_other_distances_untouched", z3.ForAll([i], z3.Implies(inT(i), z3.And(R(post["ts"](i)) == R(pre["ts"](i)), z3.Implies(i != p0, post["td"](i) == pre["td"](i)))))),
+        ("new_chain_keeps_its_own_distances_and_numbers", _same(pre, post, ("cd", "cs"), m, "c")),
+    ] + _chain_invariant([(post["tc"], post["to"], N), (post["cc"], post["co"], m)], wit)
+    when_false = [("no_change_only_when_the_existing_link_is_at_least_as_short", z3.And(z3.Not(last), prev <= d)),
+                  ("table_unchanged", _same(pre, post, COLS_T, N, "t")), ("new_chain_unchanged", _same(pre, post, COLS_C, m, "c"))]
+    return when_true, when_false
+
+
+def prefix_rel(pre, post, d, both, count_is=None):
+    """relational postcondition of add_chain_prefix(C, ., T, particle Q, d[, class_max]): (clauses when it attaches, clauses when it returns -1).
+    `both`: the form with class_max = (last order of C, unused number) used after add_chain_suffix attached C behind chain cP."""
+    N, m, q0 = pre["N"], pre["m"], pre["p0"]
+    ctc, oid = R(pre["tc"](q0)), R(pre["to"](q0))
+    i, j = z3.Ints("i!px j!px")
+    inT = lambda x: z3.And(x >= 0, x < N)
+    pq = pre["pred"](q0)
+    first = pre["to"](q0) == 1
+    head = lambda x: z3.And(z3.Not(first), R(pre["tc"](x)) == ctc, R(pre["to"](x)) < oid)
+    rest = lambda x: z3.And(R(pre["tc"](x)) == ctc, R(pre["to"](x)) >= oid)
+    clast = R(pre["co"](m - 1))                       # order of the new chain's last member (unchanged by the call)
+    newcls = R(pre["cP"]) if both else ctc             # the merged chain's number
+    headcls = R(pre["fresh"]) if both else R(pre["cnew"])
+    wit = {0: lambda x: [(0, pre["pred"](x)), (1, m - 1)], 1: lambda x: [(1, x - 1)] + ([(0, pre["pP"])] if both else [])}
+    attached = [
+        ("change_only_when_first_or_new_link_not_longer", z3.Or(first, pre["td"](pq) >= d)),
+        ("link_distance_recorded_at_the_new_chains_last_member", post["cd"](m - 1) == d),
+        ("new_chain_keeps_its_orders_and_takes_the_merged_chains_number", z3.ForAll([j], z3.Implies(z3.And(j >= 0, j < m), z3.And(R(post["co"](j)) == R(pre["co"](j)), R(post["cc"](j)) == newcls)))),
+        ("Q_and_its_successors_follow_the_new_chain_immediately_in_order", z3.ForAll([i], z3.Implies(z3.And(inT(i), rest(i)), z3.And(R(post["tc"](i)) == newcls, R(post["to"](i)) == R(pre["to"](i)) - oid + clast + 1)))),
+        ("cut_off_head_keeps_its_orders_under_an_unused_number", z3.ForAll([i], z3.Implies(z3.And(inT(i), head(i)), z3.And(R(post["tc"](i)) == headcls, R(post["to"](i)) == R(pre["to"](i)))))),
+        ("all_other_rows_unchanged", z3.ForAll([i], z3.Implies(z3.And(inT(i), R(pre["tc"](i)) != ctc), z3.And(R(post["tc"](i)) == R(pre["tc"](i)), R(post["to"](i)) == R(pre["to"](i)))))),
+        ("subtomogram_numbers_and_recorded_distances_of_the_table_untouched", _same(pre, post, ("ts", "td"), N, "t")),
+        ("other_distances_and_the_numbers_of_the_new_chain_untouched", z3.ForAll([j], z3.Implies(z3.And(j >= 0, j < m), z3.And(R(post["cs"](j)) == R(pre["cs"](j)), z3.Implies(j < m - 1, post["cd"](j) == pre["cd"](j)))))),
+    ] + _chain_invariant([(post["tc"], post["to"], N), (post["cc"], post["co"], m)], wit)
+    declined = [("no_change_only_when_the_existing_link_is_at_least_as_short", z3.And(z3.Not(first), pre["td"](pq) <= d)),
+                ("table_unchanged", _same(pre, post, COLS_T, N, "t")), ("new_chain_unchanged", _same(pre, post, COLS_C, m, "c"))]
+    return attached, declined
+
+
+def chain_requires(pre, form):
+    """the REQUIRES of add_chain_suffix / add_chain_prefix as formulas over the state before the call (callables), for the three call forms
+    'fresh' (the new chain carries an unused number and the orders 1..m) and 'both' (prefix after suffix, see prefix_rel)"""
+    N, m, p0 = pre["N"], pre["m"], pre["p0"]
+    tc, to, ts, cc, co, pred = pre["tc"], pre["to"], pre["ts"], pre["cc"], pre["co"], pre["pred"]
+    i, j = z3.Ints("i!rq j!rq")
+    rq = [("at_least_one_row_each", z3.And(m >= 1, N >= 1)),
+          ("orders_and_object_numbers_positive", z3.ForAll([i], z3.Implies(z3.And(i >= 0, i < N), z3.And(R(to(i)) >= 1, R(tc(i)) >= 1)))),
+          ("subtomogram_numbers_unique_and_no_order_number_twice_in_a_chain",
+           z3.ForAll([i, j], z3.Implies(z3.And(i >= 0, i < N, j >= 0, j < N, i != j), z3.And(R(ts(i)) != R(ts(j)), z3.Implies(R(tc(i)) == R(tc(j)), R(to(i)) != R(to(j))))))),
+          ("every_member_beyond_the_first_has_a_predecessor",
+           z3.ForAll([i], z3.Implies(z3.And(i >= 0, i < N, R(to(i)) > 1), z3.And(pred(i) >= 0, pred(i) < N, R(tc(pred(i))) == R(tc(i)), R(to(pred(i))) == R(to(i)) - 1)))),
+          ("the_particle_is_a_row_of_the_table", z3.And(p0 >= 0, p0 < N, R(ts(p0)) == R(pre["pid"])))]
+    if form == "fresh":
+        rq += [("new_chains_number_is_positive_and_unused", z3.And(R(pre["cnew"]) >= 1, z3.ForAll([i], z3.Implies(z3.And(i >= 0, i < N), R(tc(i)) != R(pre["cnew"]))))),
+               ("new_chain_carries_its_number_and_the_orders_1_to_m", z3.ForAll([j], z3.Implies(z3.And(j >= 0, j < m), z3.And(R(cc(j)) == R(pre["cnew"]), R(co(j)) == j + 1))))]
+    else:
+        cP, base, fresh, pP = pre["cP"], pre["base"], pre["fresh"], pre["pP"]
+        rq += [("the_new_chain_continues_chain_P_behind_its_last_member", z3.And(R(base) >= 1, pP >= 0, pP < N, R(tc(pP)) == R(cP), R(to(pP)) == R(base),
+                                                                               z3.ForAll([j], z3.Implies(z3.And(j >= 0, j < m), z3.And(R(cc(j)) == R(cP), R(co(j)) == R(base) + j + 1))),
+                                                                               z3.ForAll([i], z3.Implies(z3.And(i >= 0, i < N, R(tc(i)) == R(cP)), R(to(i)) <= R(base))))),
+               ("the_number_for_a_cut_off_head_is_positive_and_unused", z3.And(R(fresh) != R(cP), R(fresh) >= 1, z3.ForAll([i], z3.Implies(z3.And(i >= 0, i < N), R(tc(i)) != R(fresh))))),
+               ("the_two_chains_of_a_two_sided_connection_differ", R(tc(p0)) != R(cP))]
+    return rq
+
+
 class AddChainSuffix(Contract):
     """add_chain_suffix: attach the new chain behind a particle of an existing chain (cutting that chain's tail off when the new link is shorter)"""
     prop = "C19"
@@ -138,30 +233,12 @@ class AddChainSuffix(Contract):
         return (lambda: f(C, _MotlStub(SV(v["pid"])), T, SV(z3.Int("k")), dist)), {"T": T, "C": C, "v": v, "dist": dist.t}
 
     def post(self, cx, cfg, inp, res):
-        T, C, v, d = inp["T"], inp["C"], inp["v"], inp["dist"]
-        N, m, p0 = v["N"], v["m"], v["p0"]
-        temp, oid, prev = sym.real(v["tc"](p0)), sym.real(v["to"](p0)), v["td"](p0)
-        i, j = z3.Ints("i!post j!post")
-        inT = lambda x: z3.And(x >= 0, x < N)
-        last = z3.ForAll([i], z3.Implies(z3.And(inT(i), v["tc"](i) == v["tc"](p0)), v["to"](i) <= v["to"](p0)))  # the particle is the last of its chain
-        if res is False or (isinstance(res, bool) and not res):
-            unchanged = all(not T.changed(c) for c in TCOLS) and all(not C.changed(c) for c in TCOLS)
-            return [("no_change_only_when_the_existing_link_is_at_least_as_short", z3.And(z3.Not(last), prev <= d), ()),
-                    ("nothing_changed", z3.BoolVal(bool(unchanged)))]
-        tc2, to2, td2, ts2 = T.cols["object_id"], T.cols["geom2"], T.cols["geom4"], T.cols["subtomo_id"]
-        cc2, co2 = C.cols["object_id"], C.cols["geom2"]
-        tail = lambda x: z3.And(z3.Not(last), sym.real(v["tc"](x)) == temp, sym.real(v["to"](x)) > oid)
-        cl = [("returns_true", z3.BoolVal(res is True)),
-              ("change_only_when_last_or_new_link_not_longer", z3.Or(last, prev >= d), ()),  # at equal distances either choice satisfies the property
-              ("new_chain_follows_the_particle_immediately", z3.ForAll([j], z3.Implies(z3.And(j >= 0, j < m), z3.And(cc2(j) == temp, co2(j) == oid + j + 1))), ()),
-              ("link_distance_recorded_at_the_particle", td2(p0) == d, ()),
-              ("cut_off_tail_keeps_its_internal_order_under_the_new_chains_number", z3.ForAll([i], z3.Implies(z3.And(inT(i), tail(i)), z3.And(tc2(i) == v["cnew"], to2(i) == sym.real(v["to"](i)) - oid))), ()),
-              ("all_other_rows_unchanged", z3.ForAll([i], z3.Implies(z3.And(inT(i), z3.Not(tail(i))), z3.And(tc2(i) == sym.real(v["tc"](i)), to2(i) == sym.real(v["to"](i)), z3.Or(i == p0, td2(i) == v["td"](i))))), ()),
-              ("subtomogram_numbers_and_other_distances_untouched", z3.ForAll([i], z3.Implies(inT(i), z3.And(ts2(i) == sym.real(v["ts"](i)), z3.Implies(i != p0, td2(i) == v["td"](i))))), ()),
-              ("new_chain_keeps_its_own_distances", z3.BoolVal(not C.changed("geom4") and not C.changed("subtomo_id")))]
-        wit = {0: lambda x: [(0, v["pred"](x))], 1: lambda x: [(1, x - 1), (0, p0)]}
-        cl += [(n, g, ()) for n, g in _chain_invariant([(tc2, to2, N), (cc2, co2, m)], wit)]
-        return cl
+        when_true, when_false = suffix_rel(_pre_of(inp["v"]), _post_of(inp["T"], inp["C"]), inp["dist"])
+        if res is True:
+            return [("returns_true", z3.BoolVal(True))] + [(n, g, ()) for n, g in when_true]
+        if res is False:
+            return [(n, g, ()) for n, g in when_false]
+        return [("returns_a_bool", z3.BoolVal(False))]
 
     def cross(self, cfg, paths):
         kinds = [out[1] for cx, inputs, out in paths if out[0] == "return"]
@@ -186,56 +263,21 @@ class AddChainPrefix(Contract):
 
     def bind(self, cx, cfg):
         it = Interp("ribana", common.base_globals())
-        T, C, v = _chain_tables(cx, fresh_chain=(cfg["form"] == "append_only"))
+        T, C, v = _chain_tables(cx, form=("fresh" if cfg["form"] == "append_only" else "both"))
         dist = SV(z3.Real("current_dist"))
         f = it.function("add_chain_prefix")
         kw = {}
         if cfg["form"] == "both_sides":
-            # C was attached behind the last member (order `base`) of chain cP: its rows carry cP and the orders base+1..base+m
-            N, m = v["N"], v["m"]
-            cP, base, fresh, pP = z3.Int("class_P"), z3.Int("base"), z3.Int("fresh_class"), z3.Int("row_P")
-            i, j = z3.Ints("i!b j!b")
-            cx.assume(z3.And(base >= 1, pP >= 0, pP < N, v["tc"](pP) == cP, v["to"](pP) == base, fresh != cP, fresh >= 1, v["tc"](v["p0"]) != cP))
-            cx.assume(z3.ForAll([i], z3.Implies(z3.And(i >= 0, i < N), z3.And(v["tc"](i) != fresh, z3.Implies(v["tc"](i) == cP, v["to"](i) <= base)))))
-            cx.assume(z3.ForAll([j], z3.Implies(z3.And(j >= 0, j < m), z3.And(v["cc"](j) == cP, v["co"](j) == base + j + 1))))
-            v.update(cP=cP, base=base, fresh=fresh, pP=pP)
-            kw["class_max"] = (SV(base + m), SV(fresh))
+            kw["class_max"] = (SV(v["base"] + v["m"]), SV(v["fresh"]))
         return (lambda: f(C, _MotlStub(SV(v["pid"])), T, SV(z3.Int("k")), dist, **kw)), {"T": T, "C": C, "v": v, "dist": dist.t}
 
     def post(self, cx, cfg, inp, res):
-        T, C, v, d = inp["T"], inp["C"], inp["v"], inp["dist"]
-        N, m, q0 = v["N"], v["m"], v["p0"]
-        both = cfg["form"] == "both_sides"
-        ctc, oid = sym.real(v["tc"](q0)), sym.real(v["to"](q0))
-        i, j = z3.Ints("i!post j!post")
-        inT = lambda x: z3.And(x >= 0, x < N)
-        pq = v["pred"](q0)
-        first = v["to"](q0) == 1
+        T, v = inp["T"], inp["v"]
+        attached, declined = prefix_rel(_pre_of(v), _post_of(T, inp["C"]), inp["dist"], cfg["form"] == "both_sides")
+        count_facts = [cnt.t == v["to"](v["p0"]) - 1 for mk, cnt in T.counts]  # counting lemma (lean/Counting.lean): a chain carrying exactly 1..k has t-1 members below t
         if isinstance(res, int) and res == -1:
-            unchanged = all(not T.changed(c) for c in TCOLS) and all(not C.changed(c) for c in TCOLS)
-            return [("no_change_only_when_the_existing_link_is_at_least_as_short", z3.And(z3.Not(first), v["td"](pq) <= d), ()),
-                    ("nothing_changed", z3.BoolVal(bool(unchanged)))]
-        tc2, to2, td2, ts2 = T.cols["object_id"], T.cols["geom2"], T.cols["geom4"], T.cols["subtomo_id"]
-        cc2, co2, cd2 = C.cols["object_id"], C.cols["geom2"], C.cols["geom4"]
-        count_facts = [cnt.t == v["to"](q0) - 1 for mk, cnt in T.counts]  # counting lemma (assumed): a chain carrying exactly 1..k has t-1 members below t
-        head = lambda x: z3.And(z3.Not(first), sym.real(v["tc"](x)) == ctc, sym.real(v["to"](x)) < oid)
-        rest = lambda x: z3.And(sym.real(v["tc"](x)) == ctc, sym.real(v["to"](x)) >= oid)
-        clast = sym.real(v["co"](m - 1))                       # order of the new chain's last member (unchanged by the call)
-        newcls = sym.real(v["cP"]) if both else ctc               # the merged chain's number
-        headcls = sym.real(v["fresh"]) if both else sym.real(v["cnew"])
-        cl = [("returns_none", z3.BoolVal(res is None)),
-              ("change_only_when_first_or_new_link_not_longer", z3.Or(first, v["td"](pq) >= d), ()),
-              ("link_distance_recorded_at_the_new_chains_last_member", cd2(m - 1) == d, ()),
-              ("new_chain_keeps_its_orders_and_takes_the_merged_chains_number", z3.ForAll([j], z3.Implies(z3.And(j >= 0, j < m), z3.And(co2(j) == sym.real(v["co"](j)), cc2(j) == newcls))), ()),
-              ("Q_and_its_successors_follow_the_new_chain_immediately_in_order", z3.ForAll([i], z3.Implies(z3.And(inT(i), rest(i)), z3.And(tc2(i) == newcls, to2(i) == sym.real(v["to"](i)) - oid + clast + 1))), (), count_facts),
-              ("cut_off_head_keeps_its_orders_under_an_unused_number", z3.ForAll([i], z3.Implies(z3.And(inT(i), head(i)), z3.And(tc2(i) == headcls, to2(i) == sym.real(v["to"](i))))), (), count_facts),
-              ("all_other_rows_unchanged", z3.ForAll([i], z3.Implies(z3.And(inT(i), sym.real(v["tc"](i)) != ctc), z3.And(tc2(i) == sym.real(v["tc"](i)), to2(i) == sym.real(v["to"](i))))), (), count_facts),
-              ("subtomogram_numbers_and_recorded_distances_of_the_table_untouched", z3.BoolVal(not T.changed("subtomo_id") and not T.changed("geom4"))),
-              ("other_distances_of_the_new_chain_untouched", z3.ForAll([j], z3.Implies(z3.And(j >= 0, j < m - 1), cd2(j) == v["cd"](j))), ())]
-        # predecessor witnesses: T rows keep their old predecessor, except Q whose predecessor is the new chain's last member; C rows: previous row, row P for the first one
-        wit = {0: lambda x: [(0, v["pred"](x)), (1, m - 1)], 1: lambda x: [(1, x - 1)] + ([(0, v["pP"])] if both else [])}
-        cl += [(n, g, (), count_facts) for n, g in _chain_invariant([(tc2, to2, N), (cc2, co2, m)], wit)]
-        return cl
+            return [(n, g, ()) for n, g in declined]
+        return [("returns_none", z3.BoolVal(res is None))] + [(n, g, (), count_facts) for n, g in attached]
 
     def cross(self, cfg, paths):
         kinds = [out[1] for cx, inputs, out in paths if out[0] == "return"]
@@ -246,20 +288,140 @@ class AddChainPrefix(Contract):
         return r.replay_scenarios()
 
 
-CONTRACTS = [GetNNDist, AddChainSuffix, AddChainPrefix]
+class _StateFns:
+    """a state of (traced table T, new chain C) as callables; `havoc` replaces the cell functions that a callee may change by fresh ones"""
+    n = 0
+
+    @staticmethod
+    def of(T, C, base):
+        d = dict(base)
+        d.update(_post_of(T, C))
+        return d
+
+    @staticmethod
+    def havoc(T, C):
+        _StateFns.n += 1
+        u = _StateFns.n
+        for tab, pre_ in ((T, "T"), (C, "C")):
+            for c in TCOLS:
+                F = z3.Function(f"{pre_}{u}_{c}", z3.IntSort(), z3.IntSort() if c != "geom4" else z3.RealSort())
+                tab.cols[c] = (lambda i, F=F: sym.real(F(i)))
+
+
+class TraceChainsConnect(Contract):
+    """trace_chains, the connection step (block from `ch_changed = False` to the call of add_chain_prefix): the two callees are used through their
+    contracts (requires = obligations at the call sites, relational postconditions = assumptions).  Proved: every REQUIRES holds at both call sites
+    -- in particular the object number handed over for a cut-off head is unused -- the chain invariant holds afterwards and every object number in
+    use stays below the counter class_c"""
+    prop = "C19"
+    module = "ribana"
+    qual = "trace_chains"
+    configs = [{"first": True, "nm": True}, {"first": True, "nm": False}, {"first": False, "nm": True}]
+
+    def cfg_name(self, cfg):
+        return f"block=connect,behind={cfg['first']},in_front={cfg['nm']}"
+
+    def bind(self, cx, cfg):
+        T, C, v = _chain_tables(cx, "fresh")
+        N, m = v["N"], v["m"]
+        cls_c = SV(z3.Int("class_c"))
+        i = z3.Int("i!blk")
+        # loop invariant of trace_chains at this point: the finished chain carries the number class_c - 1, every number in the table is below it
+        cx.assume(z3.And(v["cnew"] == cls_c.t - 1, z3.ForAll([i], z3.Implies(z3.And(i >= 0, i < N), v["tc"](i) < cls_c.t - 1))))
+        # the particles the chain may connect to: behind P (row pF, found by its exit site) and in front of Q (row pQ, found by its entry site);
+        # when both exist they belong to different chains (the code before the block drops one side otherwise)
+        pF, pQ = z3.Int("row_behind"), z3.Int("row_in_front")
+        idF, idQ = z3.Int("id_behind"), z3.Int("id_in_front")
+        cx.assume(z3.And(pF >= 0, pF < N, v["ts"](pF) == idF, pQ >= 0, pQ < N, v["ts"](pQ) == idQ, v["tc"](pF) != v["tc"](pQ)))
+        dF, dQ = SV(z3.Real("first_dist")), SV(z3.Real("nm_dist"))
+        rec = {"calls": []}
+        st = {"pred": v["pred"]}
+
+        def suffix_stub(chain_df, motl, traced_df, idx, dist, *a, **k):
+            pre = _StateFns.of(T, C, dict(v, p0=pF, pid=idF))
+            for nm_, fml in chain_requires(pre, "fresh"):
+                ctx().oblige(f"pre@add_chain_suffix.{nm_}", fml, kind="pre")
+            ok = chain_df is C and traced_df is T and motl == "exit-list" and isinstance(idx, SV) and idx.t.eq(z3.Int("first_idx")) and dist is dF
+            ctx().oblige("pre@add_chain_suffix.called_with_the_chain_the_table_and_the_candidate_behind", z3.BoolVal(bool(ok)), kind="pre")
+            _StateFns.havoc(T, C)
+            post = _StateFns.of(T, C, {})
+            chg = ctx().fresh("suffix_changed", "Bool")
+            wt, wf = suffix_rel(pre, post, dF.t)
+            ctx().assume(z3.Implies(chg, z3.And(*[g for _, g in wt])))
+            ctx().assume(z3.Implies(z3.Not(chg), z3.And(*[g for _, g in wf])))
+            rec["calls"].append(("suffix", pre))
+            return sym.SB(chg)
+
+        def prefix_stub(chain_df, motl, traced_df, idx, dist, *a, class_max=None, **k):
+            base = dict(v, p0=pQ, pid=idQ)
+            form = "fresh"
+            if class_max is not None:
+                form = "both"
+                base.update(cP=sym.to_z3(SV(C.cols["object_id"](z3.IntVal(0)))), base=sym.real(sym.to_z3(class_max[0])) - z3.ToReal(m), fresh=sym.to_z3(class_max[1]), pP=pF)
+            pre = _StateFns.of(T, C, base)
+            for nm_, fml in chain_requires(pre, form):
+                ctx().oblige(f"pre@add_chain_prefix[{form}].{nm_}", fml, kind="pre")
+            ok = chain_df is C and traced_df is T and motl == "entry-list" and isinstance(idx, SV) and idx.t.eq(z3.Int("nm_idx")) and dist is dQ
+            ctx().oblige(f"pre@add_chain_prefix[{form}].called_with_the_chain_the_table_and_the_candidate_in_front", z3.BoolVal(bool(ok)), kind="pre")
+            _StateFns.havoc(T, C)
+            post = _StateFns.of(T, C, {})
+            att = ctx().fresh("prefix_attached", "Bool")
+            wa, wd = prefix_rel(pre, post, dQ.t, form == "both")
+            ctx().assume(z3.Implies(att, z3.And(*[g for _, g in wa])))
+            ctx().assume(z3.Implies(z3.Not(att), z3.And(*[g for _, g in wd])))
+            rec["calls"].append(("prefix", form))
+            return None
+
+        it = Interp("ribana", common.base_globals(), contracts={"add_chain_suffix": suffix_stub, "add_chain_prefix": prefix_stub})
+        f = it.block_function("trace_chains", lambda s: s.startswith("ch_changed = False"), lambda s: s.startswith("if nm_idx != -1:"),
+                              ["ch_m", "fm_exit", "fm_entry", "nfm_df", "first_idx", "first_dist", "nm_idx", "nm_dist", "class_c", "store_idx1", "store_idx2"], ["class_c"])
+        fi = SV(z3.Int("first_idx")) if cfg["first"] else -1
+        ni = SV(z3.Int("nm_idx")) if cfg["nm"] else -1
+        if cfg["first"]:
+            cx.assume(z3.Int("first_idx") >= 0)
+        if cfg["nm"]:
+            cx.assume(z3.Int("nm_idx") >= 0)
+
+        def thunk():
+            rec["calls"] = []
+            out = f(C, "exit-list", "entry-list", T, fi, dF, ni, dQ, cls_c, "object_id", "geom2")
+            return {"class_c": out[0], "calls": list(rec["calls"])}
+        return thunk, {"T": T, "C": C, "v": v, "cls_c": cls_c, "lines": it.block_lines}
+
+    def post(self, cx, cfg, inp, res):
+        T, C, v = inp["T"], inp["C"], inp["v"]
+        N, m = v["N"], v["m"]
+        cc_new = sym.to_z3(res["class_c"])
+        i, j = z3.Ints("i!cb j!cb")
+        post = _post_of(T, C)
+        kinds = [c[0] for c in res["calls"]]
+        want = (["suffix"] if cfg["first"] else []) + (["prefix"] if cfg["nm"] else [])
+        return [("callees_called_as_the_candidates_demand", z3.BoolVal(kinds == want)),
+                ("counter_never_decreases", cc_new >= inp["cls_c"].t, ()),
+                ("every_object_number_in_use_is_below_the_counter", z3.And(z3.ForAll([i], z3.Implies(z3.And(i >= 0, i < N), z3.And(R(post["tc"](i)) < R(cc_new), R(post["tc"](i)) >= 1))),
+                                                                          z3.ForAll([j], z3.Implies(z3.And(j >= 0, j < m), z3.And(R(post["cc"](j)) < R(cc_new), R(post["cc"](j)) >= 1)))), ())]
+
+    def replay(self, clause, model, cfg):
+        from rtc import c19 as r
+        return r.replay_scenarios()
+
+
+CONTRACTS = [GetNNDist, AddChainSuffix, AddChainPrefix, TraceChainsConnect]
 LEVEL = "other"
 EXPLANATION = ("get_nn_dist is proved (quantified obligations over the sorted radius-query contract and the boolean-mask selection contract) to return the nearest candidate with the requested activity flag and "
                "distance in (dist_min, dist_max], with that distance, or -1 when none exists. add_chain_suffix and add_chain_prefix (both call forms) are proved on position-function tables to preserve the chain "
                "invariant over the union of the traced table and the new chain (orders >= 1, no order number twice in a chain, every member beyond the first has a predecessor, i.e. every chain carries exactly 1..k), "
                "to place the attached chain immediately behind / in front of the particle it connects to, to record the link distance, to keep the internal order of a cut-off tail / head under an unused object "
-               "number, and to leave every other cell unchanged; the no-change outcome occurs only when the existing link is at least as short. The main loop of trace_chains (which candidate is looked up, "
-               "which object numbers are unused at the two call sites, the assembly per tomogram) is checked only by the bounded run-time contract (the property verbatim) on random dense clusters and on "
+               "number, and to leave every other cell unchanged; the no-change outcome occurs only when the existing link is at least as short. The connection step of trace_chains (block from `ch_changed = False` to the call "
+               "of add_chain_prefix, extracted mechanically) is verified against the two callee contracts: every REQUIRES holds at both call sites - in particular the object number handed over for a cut-off head is "
+               "unused, also after add_chain_suffix cut off a tail - and every object number in use stays below the counter class_c, under the loop invariant 'the finished chain carries class_c - 1 and every number in the "
+               "table is below it'. The rest of the main loop of trace_chains (forward tracing, which candidates are looked up, the assembly per tomogram) is checked only by the bounded run-time contract (the property verbatim) on random dense clusters and on "
                "role-based arrangements that reach every branch; that part is labelled bounded and never counted as proved.")
 ASSUMPTIONS = ["sklearn KDTree.query_radius(sort_results=True) contract; numpy boolean-mask selection keeps order",
                "pandas semantics of the position-function table model (vfw/models/ptable.py): .loc[mask, cols] = v writes exactly the masked cells, .values[0] is the first masked row, np.max is attained and dominates, "
                ".shape[0] counts the masked rows (as the cardinality of the set of masked rows); the counting fact 'a chain carrying exactly the orders 1..k has t-1 members with order < t' is proved in Lean (lean/Counting.lean) and instantiated for the call's count",
-               "requires of add_chain_suffix / add_chain_prefix (established by trace_chains, not proved there): the traced table satisfies the chain invariant, subtomogram numbers are unique, the particle is a row of it, "
-               "object numbers are positive, the new chain's number (and class_max[1]) is not used in the table, the two chains of a two-sided connection differ",
+               "requires of the connection-step block (established by the rest of trace_chains' main loop, not proved there; monitored at every real call in the bounded run): the traced table satisfies the chain invariant, "
+               "subtomogram numbers are unique, the candidates are rows of it and belong to different chains, the finished chain carries the number class_c - 1 and the orders 1..m, every number in the table is below class_c - 1",
                "trace_chains main loop: no contract within reach (data-dependent merging over pandas state) -- bounded only"]
 
 
